@@ -565,8 +565,11 @@ class propagator_cpmc(propagator_unrestricted):
         )
         overlaps_new = trial.calc_overlap(prop_data["walkers"], wave_data)
         prop_data["weights"] *= (overlaps_new / prop_data["overlaps"]).real
+        # a walker killed by the constraint carries overlap 0 (ratio x/0): it stays dead
         prop_data["weights"] = jnp.where(
-            prop_data["weights"] < 1.0e-8, 0.0, prop_data["weights"]
+            jnp.isnan(prop_data["weights"]) | (prop_data["weights"] < 1.0e-8),
+            0.0,
+            prop_data["weights"],
         )
         prop_data["overlaps"] = overlaps_new
         prop_data["greens"] = trial.calc_full_green_vmap(
